@@ -159,14 +159,10 @@ func isSameTarget(graph *core.BuildGraph, lhs, rhs *core.BuildTarget) bool {
 		return true
 	}
 
-	// Otherwise check they belong to the same non-hidden rule
-	if lhs.Label.IsHidden() {
-		lhs = lhs.Parent(graph)
-	}
-	if rhs.Label.IsHidden() {
-		rhs = rhs.Parent(graph)
-	}
-	return lhs == rhs && lhs != nil
+	// Otherwise check they belong to the same rule, i.e. their labels have the same parent.
+	// This deliberately doesn't look the parent up in the graph: hidden targets can be
+	// generated by a rule whose own name differs, in which case there is no such target.
+	return lhs.Label.Parent() == rhs.Label.Parent()
 }
 
 func (r *revdeps) findRevdeps(state *core.BuildState) map[*core.BuildTarget]struct{} {
